@@ -208,17 +208,37 @@ class InjectedFault(Exception):
     pass
 
 
+class InjectedInterrupt(BaseException):
+    """outside the Exception hierarchy, like KeyboardInterrupt / SystemExit raised while a user callable runs"""
+
+
+class FailingOut(io.StringIO):
+    """an output stream whose k-th write fails (closed pipe / full disk); counts writes"""
+
+    def __init__(self, k=None):
+        super().__init__()
+        self.k = k
+        self.n = 0
+
+    def write(self, txt):
+        self.n += 1
+        if self.k is not None and self.n == self.k:
+            raise OSError(32, "Broken pipe (injected)")
+        return super().write(txt)
+
+
 class Counter:
     def __init__(self):
         self.n = 0
         self.k = None
+        self.exc = InjectedFault
         self.keep = []      # the user keeps a reference to the objects it created while the census is taken
 
     def wrap(self, f):
         def g(*a, **kw):
             self.n += 1
             if self.k is not None and self.n == self.k:
-                raise InjectedFault()
+                raise self.exc()
             return f(*a, **kw)
         return g
 
@@ -359,15 +379,19 @@ def structural_calls():
 
 
 def fault_case(args):
-    api, ptype, k = args
+    """mode 'exc': the k-th user-callable invocation raises an Exception; 'base': it raises a BaseException that is not
+    an Exception; 'write': the k-th write to the output stream fails with OSError."""
+    api, ptype, k = args[:3]
+    mode = args[3] if len(args) > 3 else "exc"
     calls = dict(api_calls(), **structural_calls())
     c = Counter()
-    c.k = k
+    c.k = k if mode != "write" else None
+    c.exc = InjectedInterrupt if mode == "base" else InjectedFault
     RegTimer.registry = []
     saved = U.Timer
     U.Timer = RegTimer
     old_out = sys.stdout
-    sys.stdout = io.StringIO()
+    out = sys.stdout = FailingOut(k if mode == "write" else None)
     raised = None
     before = set(threading.enumerate())
     result = None
@@ -384,7 +408,7 @@ def fault_case(args):
     if left:
         _time.sleep(0.05)       # threads that are merely finishing are not a leak
         left = [t for t in threading.enumerate() if t not in before and t.is_alive()]
-    return {"raised": raised, "armed": armed, "timers": len(RegTimer.registry), "count": c.n,
+    return {"raised": raised, "armed": armed, "timers": len(RegTimer.registry), "count": c.n, "writes": out.n,
             "threads_left": [t.name for t in left]}
 
 
@@ -412,6 +436,17 @@ def fault_part(tier, seed):
                 if tier == "quick" and pt in ("silent", "simple") and len(ks) > 24 and k % 4 != 1:
                     continue
                 jobs.append((api, pt, k))
+    # the same fault points with an exception outside the Exception hierarchy (Ctrl-C / sys.exit inside the callable)
+    jobs += [(a, pt, k, "base") for (a, pt, k) in list(jobs) if pt in ("bar", None)]
+    # environment fault: the k-th write to the output stream fails, for every write of every reporting mode
+    nwr = {}
+    for api in apis + structs:
+        for pt in ("simple", "bar", None):
+            w = fault_case((api, pt, None, "write"))["writes"]
+            nwr[f"{api}/{pt}"] = w
+            for k in range(1, w + 1):
+                jobs.append((api, pt, k, "write"))
+    counts = dict(counts, writes=nwr)
     for api in structs:
         for pt in ptypes:
             jobs.append((api, pt, 1))
@@ -427,19 +462,22 @@ def fault_part(tier, seed):
         h["runs"] += 1
         h["raised"] += bool(r["raised"])
         h["armed_after"] += bool(r["armed"])
+        mode = j[3] if len(j) > 3 else "exc"
+        mtag = {"exc": "", "base": "non-Exception-", "write": "failed-write-"}[mode]
         if r["armed"]:
             pt = "default" if j[1] is None else j[1]
-            vio.append(Violation(f"fault|{j[0]}|progress={pt}|timer-left-armed-after-exception",
-                                 f"{j[0]}(progress_type={j[1]!r}): exception ({r['raised']}) at user-callable invocation {j[2]} "
+            where = "write to the output stream" if mode == "write" else "user-callable invocation"
+            vio.append(Violation(f"fault|{j[0]}|progress={pt}|{mtag}timer-left-armed-after-exception",
+                                 f"{j[0]}(progress_type={j[1]!r}): exception ({r['raised']}) at {where} {j[2]} "
                                  f"propagated and left {r['armed']} progress timer(s) armed",
-                                 {"part": "fault", "api": j[0], "ptype": j[1], "k": j[2]}))
+                                 {"part": "fault", "api": j[0], "ptype": j[1], "k": j[2], "mode": mode}))
         if r.get("threads_left"):
             pt = "default" if j[1] is None else j[1]
             how = "after-exception" if r["raised"] else "after-return"
-            vio.append(Violation(f"fault|{j[0]}|progress={pt}|threads-left-alive-{how}",
+            vio.append(Violation(f"fault|{j[0]}|progress={pt}|{mtag}threads-left-alive-{how}",
                                  f"{j[0]}(progress_type={j[1]!r}): {len(r['threads_left'])} thread(s) started by the call still "
                                  f"alive {how}: {r['threads_left'][:3]}",
-                                 {"part": "fault", "api": j[0], "ptype": j[1], "k": j[2]}))
+                                 {"part": "fault", "api": j[0], "ptype": j[1], "k": j[2], "mode": mode}))
     return vio, hist, len(jobs), counts
 
 
@@ -497,8 +535,9 @@ def run(tier, seed):
                 "complete executions (schedules) of the real ProgressBar under the cooperative scheduler, all schedules with "
                 "<= B preemptions and <= 3 timer firings for each completed bound B; fault runs: every user-callable "
                 "invocation index for progress type 'bar' and default (quick tier: APIs with > 60 invocations use the first "
-                "20 indices + 40 evenly spaced ones, and stride 4 for silent/simple; thorough: every index) x 9 APIs + 4 "
-                "structural faults",
+                "20 indices + 40 evenly spaced ones, and stride 4 for silent/simple; thorough: every index) x 10 APIs + 4 "
+                "structural faults; the same indices with a BaseException for 'bar'/default; every write to the output stream "
+                "failing once (OSError) for simple/bar/default",
         "samples": [{"driver": "enter-update-update-exit", "choices": [0, 0, 1, 0, 0, 2]},
                     {"fault": ["compute_dynamics", "bar", 3]}],
     }
@@ -516,11 +555,13 @@ def replay(rp):
         obs = {"log": [list(e) for e in x.log], "choices": x.choices}
         key = "+".join(sorted(set(v)))
         return {"obs": obs, "violation": f"schedule|{rp['driver']}|{key}" if v else None}
-    r = fault_case((rp["api"], rp["ptype"], rp["k"]))
+    mode = rp.get("mode", "exc")
+    r = fault_case((rp["api"], rp["ptype"], rp["k"], mode))
     pt = "default" if rp["ptype"] is None else rp["ptype"]
+    mtag = {"exc": "", "base": "non-Exception-", "write": "failed-write-"}[mode]
     v = None
     if r["armed"]:
-        v = f"fault|{rp['api']}|progress={pt}|timer-left-armed-after-exception"
+        v = f"fault|{rp['api']}|progress={pt}|{mtag}timer-left-armed-after-exception"
     elif r.get("threads_left"):
-        v = f"fault|{rp['api']}|progress={pt}|threads-left-alive-" + ("after-exception" if r["raised"] else "after-return")
+        v = f"fault|{rp['api']}|progress={pt}|{mtag}threads-left-alive-" + ("after-exception" if r["raised"] else "after-return")
     return {"obs": r, "violation": v}
